@@ -21,7 +21,7 @@ Judge(e) ==
       rs == Located(e.loc, e.pre)
       fasta == \E j \in 1..Len(e.opts) : e.opts[j] = "fasta"
       erase == e.cmd = "delete" /\ \E j \in 1..Len(e.opts) : e.opts[j] = "-e"
-      embed == e.cmd = "insert" /\ \E j \in 1..Len(e.opts) : e.opts[j] = "-e"
+      embed == e.cmd \in {"insert", "infix"} /\ \E j \in 1..Len(e.opts) : e.opts[j] = "-e"
       invert == e.cmd = "extract" /\ \E j \in 1..Len(e.opts) : e.opts[j] = "-v"
       nouts == Len(e.outs)
       noFeat(vs) == IF fasta THEN {v \in vs : v[1] = "res"} ELSE vs
@@ -33,7 +33,8 @@ Judge(e) ==
                         ids2 == SelectSeq(S.ids, LAMBDA x : (x - 1) \notin P)
                     IN IF Len(e.outs[1].res) # Len(ids2) THEN V("res", "-")
                        ELSE noFeat(JudgeCmdDelete(S, Proj(e.outs[1], ids2), P, erase))
-            [] e.cmd = "insert" ->
+            \* gts infix: the same placement rule, the guest read from standard input and the host from a file
+            [] e.cmd \in {"insert", "infix"} ->
                IF nouts # 1 THEN V("out-count", "-")
                ELSE LET sites == [j \in 1..Len(rs) |-> HeadOf(rs[j])]
                         ids2 == InsertIds(S, sites, Len(e.guest))
